@@ -227,9 +227,11 @@ def _units(src, fams, extra=None, ld=None):
 
 CHECKS["C13"] = dict(
     title="ordered lists are linearizable sets",
-    units=_units("harness/sets_lists.cpp", [1, 2, 3, 4, 5]),
+    units=_units("harness/sets_lists.cpp", [1, 2, 3, 4, 5, 6, 7]),
     rule=SET_RULE,
-    explanation="MichaelList, LazyList, IterableList (HP with less, DHP with compare / seq_cst model, RCU general_buffered and general_instant; nogc insert-only variants): set/map linearizability of every execution." + SET_EXPL_TAIL,
+    explanation="MichaelList, LazyList, IterableList (HP with less, DHP with compare / seq_cst model, RCU general_buffered and general_instant; nogc insert-only variants; the intrusive MichaelList/HP, LazyList/DHP, IterableList/HP, MichaelList and LazyList/RCU with unlink(item), "
+                "where the harness owns the items: an inserted item is disposed exactly once by the time container and SMR are destroyed, a refused item never, and no instrumented access touches an item after its disposer ran): "
+                "set/map linearizability of every execution." + SET_EXPL_TAIL,
     design_ref="DESIGN.md 9/C13, 7.1",
     level_text="Exhaustive within bounds on the real lists; Wing-Gong linearizability check of every complete execution against a sequential map.",
 )
